@@ -372,7 +372,7 @@ def accS (k : String) (vs : List (Option Val)) : R Val :=
   if k = "$sum" then do (← sumAll (numbersOf vs) (.i 0)).toVal
   else if k = "$avg" then
     (if (numbersOf vs).isEmpty then .ok .null
-     else do pyDivide (← sumAll (numbersOf vs) (.i 0)) (.f (numbersOf vs).length 0))
+     else do pyTrueDiv (← sumAll (numbersOf vs) (.i 0)) (.f (numbersOf vs).length 0))
   else if k = "$min" || k = "$max" then
     (match presentOf vs with
      | [] => .ok .null
